@@ -343,6 +343,16 @@ def rereg_check(c, dreye, inp, first_query, check, matrix_ok=True):
     (seeded by inp['rereg_seed']), then run `check(new_inp, c)` against the SAME estimator with the new registered values."""
     est = c.call(make_estimator, dreye, inp, _where="ReceptorEstimator+register_system")
     c.try_call(first_query, est)
+    if int(inp["rereg_seed"]) % 2 == 0:
+        # asking again in the SAME state (the first query may have left something behind): judged like any other answer
+        c.cell("rereg=none(ask-twice)")
+        same = dict(inp)
+        same["_live_estimator"] = est
+        check(same, c)
+        if c.violations:
+            for v in c.violations:
+                v.mechanism = "second-query-same-state:" + v.mechanism
+            return None
     rr = np.random.default_rng(int(inp["rereg_seed"]))
     ok, res = c.try_call(reregister, rr, est, inp, None, matrix_ok)
     if not ok:
